@@ -49,7 +49,11 @@ def _run(name, prop, jobs, bounds, expected=(), extra_assume=()):
 
 
 def _job(h, label, budget, **params):
-    return {"harness": K + h, "label": label, "params": params, "limits": {"budget_s": budget, "max_paths": 4000 if budget <= 60 else 40000}}
+    thorough = budget > 60
+    lim = {"budget_s": budget, "max_paths": 40000 if thorough else 4000}
+    if thorough:
+        lim["xcheck_every"] = 40      # two-solver diff on every 40th property query (z3 4.8.12 and cvc5 binaries)
+    return {"harness": K + h, "label": label, "params": params, "limits": lim}
 
 
 PRIMS = ["uvarint", "svarint", "byte", "bool", "int8", "uint8", "fixed_int32", "f32", "f64", "c32", "c64"]
